@@ -338,7 +338,7 @@ func (g *Gen) Next() Op {
 		for i := range g.S.filters {
 			fidx := (start + i) % len(g.S.filters)
 			fi := g.S.filters[fidx]
-			if !fi.A.CanRegister() {
+			if !fi.Typed() {
 				continue
 			}
 			for _, t := range relTypesOf(fi.Spec.Required()) {
@@ -846,7 +846,7 @@ func (g *Gen) genBatch(k string) Op {
 	start := g.R.Intn(len(s.filters))
 	for i := range s.filters {
 		j := (start + i) % len(s.filters)
-		if s.filters[j].A.CanRegister() {
+		if s.filters[j].Typed() {
 			f = j
 			break
 		}
@@ -859,7 +859,7 @@ func (g *Gen) genBatch(k string) Op {
 	if g.R.Chance(0.25) {
 		op.QR = g.queryRels()
 	}
-	extra, _ := s.queryRels(fi, op.QR, true)
+	extra, _ := s.queryRels(fi, op.QR, fi.A)
 	sel := s.M.Select(&fi.Spec, append(append([]relPair{}, fi.Rels...), extra...))
 	noneHas := func(t []int) bool {
 		for _, l := range sel {
